@@ -781,8 +781,20 @@ def do_check(prop: Prop, tier: str, seed: int, t0: float) -> int:
     known = load_known()
     # 1. proofs
     audit = lean_build_and_audit(prop, tier)
-    # 2. table sync
-    sync_diffs = prop.table_sync()
+    # 2. table sync (an exception raised INSIDE the implementation while its tables / helpers are read is a difference
+    #    between the tables, not an infrastructure problem: e.g. a helper that now refuses one value of its domain)
+    try:
+        sync_diffs = prop.table_sync()
+    except InfraError:
+        raise
+    except Exception as e:  # noqa
+        tb = traceback.extract_tb(e.__traceback__)
+        inside = [f for f in tb if os.path.abspath(f.filename).startswith(os.path.abspath(REPO))]
+        if not inside:
+            raise
+        sync_diffs = [f"table-sync: the implementation raised {type(e).__name__}: {str(e)[:200]} at "
+                      f"{os.path.relpath(inside[-1].filename, REPO)}:{inside[-1].lineno} in {inside[-1].name} while its constants / "
+                      f"helpers were compared with the model's tables"]
     # 3. correspondence
     cases, gen_error = collect_cases(prop, rng, tier)
     viols, impl_res, model_res = evaluate(prop, cases)
